@@ -36,6 +36,9 @@ def rule_payload(r, names):
         return 'vakt.rules.string.RegexMatchRule', {'pattern': r[1]}
     if k == 'New':               # a class that exists only from 1.2.0: r = ['New', class name, contents]
         return r[1], dict(r[2])
+    if k in ('Eq', 'NotEq'):     # operator rules (1.2.0 onwards); the state a stored rule has is its argument, as given
+        import jsonpickle
+        return 'vakt.rules.operator.' + k, {'val': json.loads(jsonpickle.encode(specs.py(r[1])))}
     raise ValueError(r)
 
 
@@ -300,6 +303,11 @@ class MeaningStream(Stream):
         for i in range(n):
             lp = gen_logical(rng, 'u1', 'convertible')
             layout = rng.choice(['1.1.0', '1.1.1', '1.2.0'])
+            if layout == '1.2.0' and rng.random() < 0.6:
+                # rules that exist from 1.2.0, stored with the argument they were created with (a tuple stays a tuple
+                # in the document: {"py/tuple": [...]})
+                arg = rng.choice([{'T': ['admin', 'dev']}, {'T': [1]}, ['a', 'b'], 'x', 7, {'T': []}])
+                lp['rules'] = [r for r in lp['rules'] if r[0] != 'k'] + [['k', [rng.choice(['Eq', 'Eq', 'NotEq']), arg]]]
             # the policy the document encodes, as a spec of the current model
             ctx = []
             for name, r in lp['rules']:
@@ -315,6 +323,10 @@ class MeaningStream(Stream):
             for _ in range(3):
                 ctxv = {}
                 for name, r in lp['rules']:
+                    if r[0] in ('Eq', 'NotEq'):
+                        a = specs.py(r[1])
+                        ctxv[name] = rng.choice([list(a) if isinstance(a, tuple) else a, a, 'other'])
+                        continue
                     ctxv[name] = gen.satisfying_operand(rng, r if r[0] != 'CIDR' else ['CIDR', r[1]])
                 q = {'subject': rng.choice(['Max', 'Nina', 'admin', 'aXY', 'max']),
                      'resource': rng.choice(['book', 'bxy', 'x', 'library:12', 'library:x']),
@@ -363,7 +375,7 @@ ASSUME = ['real MongoDB cursor / replace semantics are not exhibited; the semant
 
 def main(argv):
     return run_check('C19', [DocStream(), MeaningStream()], argv, trusted_base=TRUSTED, assumptions=ASSUME,
-                     translated=('migration', 'mongo', 'pin_mongo', 'pin_rules', 'pin_util'))
+                     translated=('migration', 'mongo', 'mongomig', 'pin_migrator', 'pin_mongo', 'pin_rules', 'pin_util'))
 
 
 if __name__ == '__main__':
